@@ -103,7 +103,16 @@ func (s *Sim) loop(root func(s *Sim)) {
 			synctest.Wait()
 			for _, inv := range s.invariants {
 				if err := inv(); err != nil {
-					s.failRaw("invariant", "", err.Error())
+					// "C07.nonnegative: text" -> clause C07.nonnegative, key invariant-C07.nonnegative
+					msg := err.Error()
+					clause := "invariant"
+					for i := 0; i < len(msg) && i < 40; i++ {
+						if msg[i] == ':' {
+							clause = msg[:i]
+							break
+						}
+					}
+					s.failRaw(clause, "invariant-"+clause, msg)
 					s.invariants = nil
 					break
 				}
